@@ -56,13 +56,20 @@ WellFormed(pl, ex, im, kd, dc) ==
   \* E2 / E3 declared as E in files of their own: the hop file must not receive the name E from two files (duplicate / ambiguous export)
   /\ LET asE(d) == d = "E" \/ (d = "E2" /\ pl["E2"] \notin {"entry", pl["E"]}) \/ (d = "E3" /\ pl["E3"] \notin {"entry", pl["E"], pl["E2"]})
          cross(t) == (IF t[1] = "T" THEN "entry" ELSE pl[t[1]]) # pl[t[2]]
+         hopUsed == \E t \in Sites : cross(t) /\ im[t] \in {"hopnamed", "hopstar", "hopns"}
          starFiles == {pl[t[2]] : t \in {t \in Sites : cross(t) /\ im[t] = "hopstar"}}
+                      \cup (IF hopUsed /\ dc \notin {"none", "entry"} THEN {dc} ELSE {})      \* (the decoy's file is re-exported by a star, see below)
          plain(d) == cross(<<"T", d>>) /\ im[<<"T", d>>] \in {"hopnamed", "hopstar"}
          feeds(d) == plain(d) \/ pl[d] \in starFiles
      IN \A d1, d2 \in {"E", "E2", "E3"} : (d1 # d2 /\ asE(d1) /\ asE(d2) /\ pl[d1] # pl[d2] /\ (plain(d1) \/ plain(d2))) => ~(feeds(d1) /\ feeds(d2))
   \* the entry file is always a .ts file; a .d.ts file cannot hold a const with an initialiser: k is declared there instead
   /\ kd["entry"] = "ts"
-  \* the decoy `type B = number` lives in a file where the name B is neither declared nor bound by an import
+  \* the decoy `export type B = number` lives in a file where the name B is neither declared nor bound by an import.  When there
+  \* is a hop file it also says `export * from <decoy file>`: an explicit `export { B } from ..` of the hop file takes precedence
+  \* over the star (TypeScript), but two stars that both bring a B make the name ambiguous - then nobody may ask the hop file for B
+  /\ (dc \notin {"none", "entry"} /\ \E t \in Sites : (IF t[1] = "T" THEN "entry" ELSE pl[t[1]]) # pl[t[2]] /\ im[t] \in {"hopnamed", "hopstar", "hopns"})
+       => LET viaHop(st) == \E t \in Sites : t[2] = "B" /\ (IF t[1] = "T" THEN "entry" ELSE pl[t[1]]) # pl["B"] /\ im[t] = st
+          IN viaHop("hopstar") => viaHop("hopnamed")
   /\ dc # "none" => /\ dc # pl["B"]
                     /\ \A s \in Sites : (s[2] = "B" /\ (IF s[1] = "T" THEN "entry" ELSE pl[s[1]]) = dc /\ pl["B"] # dc) => im[s] \notin BindsPlainName
 
